@@ -6,3 +6,7 @@ const RaceBuild = false
 
 func raceOff() {}
 func raceOn()  {}
+
+func raceErrors() int { return 0 }
+
+func lastRaceReport() (string, string) { return "", "" }
